@@ -97,3 +97,9 @@ package geom
 //@   ensures g.gtype == 4 ==> sumPoints.X == old(sumPoints.X) + MPSumX(deref(g.ptr, MultiPoint), len(deref(g.ptr, MultiPoint).points)) && sumPoints.Y == old(sumPoints.Y) + MPSumY(deref(g.ptr, MultiPoint), len(deref(g.ptr, MultiPoint).points))
 //@   ensures g.gtype != 1 && g.gtype != 4 ==> numPoints == old(numPoints) && same(sumPoints, old(sumPoints))
 //@   loop 0 invariant 0 <= i && i <= len(mp.points) && g.gtype == 4 && same(mp, deref(g.ptr, MultiPoint)) && numPoints == old(numPoints) + MPFull(mp, i) && sumPoints.X == old(sumPoints.X) + MPSumX(mp, i) && sumPoints.Y == old(sumPoints.Y) + MPSumY(mp, i)
+
+//@ prop C14,C16,C20,C10
+// a polygon handed to Centroid has non-zero net area (true of every valid polygon); without it the weights are 0/0
+//@ func Geometry.Centroid
+//@   requires g.gtype == 3 && g.ptr != nil && len(deref(g.ptr, Polygon).rings) > 0 ==> NetA(deref(g.ptr, Polygon)) != 0
+//@ prop C14
